@@ -1,6 +1,6 @@
 (** C18 — proofs about the PageRank model (Algo/PageRankQ.v). *)
 From WG Require Import Algo.PageRankQ Algo.PageRankStatements.
-From Coq Require Import Lia Lqa Setoid Morphisms.
+From Coq Require Import Lia Lqa Setoid Morphisms Permutation.
 Local Open Scope Q_scope.
 
 
@@ -659,10 +659,7 @@ Section Async.
   Qed.
 
   Variable x x' y : nat -> Q.
-  Variable s : nat -> nat -> bool.
-  Let rd (i j : nat) : Q := if Nat.eqb j i then x i else if s i j then x j else x' j.
-  Hypothesis Hstep : forall i, (i < n)%nat ->
-    x' i == upd n pred alpha v md (rd i) (dangling_rank n pred x) i.
+  Hypothesis Hstep : async_step n pred alpha v md x x'.
   Hypothesis Hy : solves n pred alpha v md y.
   Let w (j : nat) : Q := Qabs (x' j - y j) + Qabs (x' j - x j).
 
@@ -677,24 +674,25 @@ Section Async.
   Proof.
     intros Hi.
     pose proof (solution_is_fixed_point_aux n pred alpha v Hg Ha Hv md y Hy i Hi) as Hyi.
+    destruct (Hstep i Hi) as (r & Hr1 & Hr2 & Hr3).
     assert (A : x' i * slf i == (1 - alpha) * v i +
       alpha * sumn n (fun j => if Nat.eqb j i then 0
-         else rd i j * Pmat n pred j i + (if dang n pred j then x j else 0) * uvec n v md i)).
-    { rewrite (Hstep i Hi) at 1. apply upd_dense; [exact Hi|]. unfold rd. rewrite Nat.eqb_refl. reflexivity. }
+         else r j * Pmat n pred j i + (if dang n pred j then x j else 0) * uvec n v md i)).
+    { rewrite Hr1 at 1. apply upd_dense; [exact Hi|exact Hr2]. }
     assert (B : y i * slf i == (1 - alpha) * v i +
       alpha * sumn n (fun j => if Nat.eqb j i then 0
          else y j * Pmat n pred j i + (if dang n pred j then y j else 0) * uvec n v md i)).
     { rewrite Hyi at 1. apply upd_dense; [exact Hi|reflexivity]. }
     assert (C : (x' i - y i) * slf i == alpha * sumn n (fun j => if Nat.eqb j i then 0
-         else (rd i j - y j) * Pmat n pred j i + (if dang n pred j then x j - y j else 0) * uvec n v md i)).
+         else (r j - y j) * Pmat n pred j i + (if dang n pred j then x j - y j else 0) * uvec n v md i)).
     { setoid_replace ((x' i - y i) * slf i) with (x' i * slf i - y i * slf i) by ring.
       rewrite A, B.
       setoid_replace ((1 - alpha) * v i + alpha * sumn n (fun j => if Nat.eqb j i then 0
-           else rd i j * Pmat n pred j i + (if dang n pred j then x j else 0) * uvec n v md i) -
+           else r j * Pmat n pred j i + (if dang n pred j then x j else 0) * uvec n v md i) -
          ((1 - alpha) * v i + alpha * sumn n (fun j => if Nat.eqb j i then 0
            else y j * Pmat n pred j i + (if dang n pred j then y j else 0) * uvec n v md i)))
         with (alpha * (sumn n (fun j => if Nat.eqb j i then 0
-           else rd i j * Pmat n pred j i + (if dang n pred j then x j else 0) * uvec n v md i) -
+           else r j * Pmat n pred j i + (if dang n pred j then x j else 0) * uvec n v md i) -
           sumn n (fun j => if Nat.eqb j i then 0
            else y j * Pmat n pred j i + (if dang n pred j then y j else 0) * uvec n v md i))) by ring.
       rewrite <- sumn_minus. apply Qmult_comp; [reflexivity|]. apply sumn_ext. intros j _.
@@ -712,8 +710,8 @@ Section Async.
       pose proof (Pmat_nonneg n pred j i) as HP.
       rewrite (Qabs_pos (Pmat n pred j i)) by exact HP.
       rewrite (Qabs_pos (uvec n v md i)) by exact Hu0.
-      assert (H1 : Qabs (rd i j - y j) <= w j).
-      { unfold rd, w. rewrite E. destruct (s i j).
+      assert (H1 : Qabs (r j - y j) <= w j).
+      { unfold w. destruct (Hr3 j) as [Er|Er]; rewrite Er.
         - apply abs_tri3.
         - pose proof (Qabs_nonneg (x' j - x j)). lra. }
       assert (H2 : Qabs (if dang n pred j then x j - y j else 0) <= w j).
@@ -806,6 +804,148 @@ Qed.
 
 Theorem async_error_bound_thm : S_async_error_bound.
 Proof.
-  intros n pred alpha v md x x' st y (Hg & Ha & Hv) Hstep Hy.
-  apply (async_error_bound n pred alpha v Hg Ha Hv md x x' y st); assumption.
+  intros n pred alpha v md x x' y (Hg & Ha & Hv) Hstep Hy.
+  apply (async_error_bound n pred alpha v Hg Ha Hv md x x' y); assumption.
+Qed.
+
+(** ** The executable sweep satisfies the equations of an asynchronous iteration *)
+
+Lemma set_nth_length i a l : length (set_nth i a l) = length l.
+Proof. revert i; induction l as [|b l IH]; intros [|i]; cbn; auto. Qed.
+Lemma set_nth_same i a l : (i < length l)%nat -> nth i (set_nth i a l) 0 = a.
+Proof. revert i; induction l as [|b l IH]; intros [|i] H; cbn in *; try lia; auto. apply IH; lia. Qed.
+Lemma set_nth_other i j a l : i <> j -> nth j (set_nth i a l) 0 = nth j l 0.
+Proof.
+  revert i j; induction l as [|b l IH]; intros [|i] [|j] H; cbn; auto; try lia.
+  all: try (apply IH; lia).
+Qed.
+
+Lemma suml_perm l l' f : Permutation l l' -> suml l f == suml l' f.
+Proof.
+  induction 1; cbn [suml]; try reflexivity.
+  - rewrite IHPermutation. reflexivity.
+  - ring.
+  - rewrite IHPermutation1. exact IHPermutation2.
+Qed.
+Lemma suml_seq n f : suml (seq 0 n) f == sumn n f.
+Proof.
+  induction n as [|k IH]; [reflexivity|].
+  rewrite seq_S. cbn [sumn Nat.add]. rewrite <- IH.
+  generalize (seq 0 k). intros l. induction l as [|a l IHl]; cbn [suml app]; [ring|].
+  rewrite IHl. ring.
+Qed.
+Lemma l1dist_sumn a b : length a = length b ->
+  l1dist a b == sumn (length a) (fun i => Qabs (vecf a i - vecf b i)).
+Proof.
+  revert b. induction a as [|x a IH]; intros [|y b] H; cbn in H; try lia; [reflexivity|].
+  cbn [l1dist length]. rewrite IH by lia.
+  (* sumn (S n) f == f 0 + sumn n (fun i => f (S i)) *)
+  assert (Hs : forall n (f : nat -> Q), sumn (S n) f == f O + sumn n (fun i => f (S i))).
+  { induction n as [|k IHk]; intros f; cbn [sumn]; [ring|].
+    cbn [sumn] in IHk. rewrite IHk. ring. }
+  rewrite Hs. unfold vecf. cbn [nth]. reflexivity.
+Qed.
+
+Section SweepLink.
+  Variable gt : list (list nat).
+  Variable alpha : Q.
+  Variable v : list Q.
+  Variable md : prmode.
+  Variable old : list Q.
+  Variable dr : Q.
+  Variable stale : nat -> nat -> bool.
+  Notation n := (length gt).
+  Notation step := (sweep_step gt alpha v md old dr stale).
+
+  Lemma fold_inv l : forall cur d a, NoDup l -> (forall i, In i l -> (i < length cur)%nat) ->
+    match fold_left step l (cur, d, a) with
+    | (cur', _, a') =>
+      length cur' = length cur /\
+      (forall j, ~ In j l -> nth j cur' 0 = nth j cur 0) /\
+      (forall i, In i l -> exists r : nat -> Q,
+          nth i cur' 0 == upd n (predf gt) alpha (vecf v) md r dr i /\ r i = nth i cur 0 /\
+          forall j, r j = nth j old 0 \/ r j = nth j cur' 0 \/ r j = nth j cur 0) /\
+      a' == a + suml l (fun i => Qabs (nth i cur' 0 - nth i cur 0))
+    end.
+  Proof.
+    induction l as [|i0 l IH]; intros cur d a Hnd Hr.
+    - cbn. repeat split; auto; try (intros ? []). ring.
+    - inversion Hnd as [|? ? Hni Hnd']; subst.
+      cbn [fold_left]. unfold sweep_step at 2.
+      set (rd := fun j => if Nat.eqb j i0 then nth j cur 0
+                          else if stale i0 j then nth j old 0 else nth j cur 0).
+      set (nr := Qred (upd n (predf gt) alpha (vecf v) md rd dr i0)).
+      set (cur1 := set_nth i0 nr cur).
+      match goal with |- context [fold_left step l (cur1, ?d1, ?a1)] =>
+        specialize (IH cur1 d1 a1 Hnd') end.
+      assert (Hi0 : (i0 < length cur)%nat) by (apply Hr; left; reflexivity).
+      assert (Hlen1 : length cur1 = length cur) by apply set_nth_length.
+      destruct (fold_left step l _) as [[cur' d'] a'].
+      destruct IH as (Hlen & Hout & Hin & Hacc).
+      { intros i Hi. rewrite Hlen1. apply Hr. right. exact Hi. }
+      assert (Hc'0 : nth i0 cur' 0 = nr).
+      { rewrite (Hout i0 Hni). apply set_nth_same. exact Hi0. }
+      split; [lia|]. split; [|split].
+      + intros j Hj. rewrite Hout by (intros Hc; apply Hj; right; exact Hc).
+        apply set_nth_other. intros ->. apply Hj. left. reflexivity.
+      + intros i [<-|Hi].
+        * exists rd. split; [rewrite Hc'0; unfold nr; apply Qred_correct|].
+          split; [unfold rd; rewrite Nat.eqb_refl; reflexivity|].
+          intros j. unfold rd. destruct (Nat.eqb j i0); [right; right; reflexivity|].
+          destruct (stale i0 j); [left|right; right]; reflexivity.
+        * destruct (Hin i Hi) as (r & Hr1 & Hr2 & Hr3).
+          assert (Hne : i0 <> i) by (intros ->; contradiction).
+          exists r. split; [exact Hr1|]. split.
+          { rewrite Hr2. apply set_nth_other. exact Hne. }
+          intros j. destruct (Hr3 j) as [H|[H|H]]; [left; exact H|right; left; exact H|].
+          destruct (Nat.eq_dec i0 j) as [<-|Hne'].
+          { right. left. rewrite H, Hc'0. apply set_nth_same. exact Hi0. }
+          { right. right. rewrite H. apply set_nth_other. exact Hne'. }
+      + rewrite Hacc. rewrite Qred_correct. cbn [suml]. rewrite Hc'0.
+        rewrite (suml_ext l (fun i => Qabs (nth i cur' 0 - nth i cur1 0))
+                   (fun i => Qabs (nth i cur' 0 - nth i cur 0))).
+        * ring.
+        * intros j Hj. unfold cur1. rewrite set_nth_other; [reflexivity|].
+          intros ->. contradiction.
+  Qed.
+End SweepLink.
+
+Theorem error_bound_thm : S_error_bound.
+Proof.
+  intros gt alpha v md order stale xs sol Hc Hperm Hlen.
+  pose proof (certified_oracle_thm gt alpha v md sol Hc) as (Hsol & _).
+  unfold certified in Hc.
+  apply andb_true_iff in Hc. destruct Hc as [Hc Hres].
+  apply andb_true_iff in Hc. destruct Hc as [Hc Hlv].
+  apply andb_true_iff in Hc. destruct Hc as [Hc Hst].
+  apply andb_true_iff in Hc. destruct Hc as [Hgb Hab].
+  pose proof (wf_graphb_wf gt Hgb) as Hg.
+  pose proof (wf_alphab_wf alpha Hab) as Ha.
+  pose proof (stochasticb_wf v Hst) as Hv.
+  apply Nat.eqb_eq in Hlv. rewrite Hlv in Hv.
+  assert (Hlsol : length sol = length gt).
+  { unfold residual_zero in Hres. apply andb_true_iff in Hres. destruct Hres as [H _].
+    apply Nat.eqb_eq in H. exact H. }
+  set (n := length gt) in *.
+  set (dr := dangling_rank n (predf gt) (vecf xs)).
+  assert (Hnd : NoDup order).
+  { apply (Permutation_NoDup (Permutation_sym Hperm)). apply seq_NoDup. }
+  assert (Hrange : forall i, In i order -> (i < length xs)%nat).
+  { intros i Hi. apply (Permutation_in _ Hperm) in Hi. apply in_seq in Hi. lia. }
+  pose proof (fold_inv gt alpha v md xs dr stale order xs 0 0 Hnd Hrange) as Hinv.
+  unfold sweep. fold n. fold dr.
+  destruct (fold_left (sweep_step gt alpha v md xs dr stale) order (xs, 0, 0)) as [[xs' d'] nrm].
+  destruct Hinv as (Hlen' & _ & Hin & Hacc).
+  assert (Hstep : async_step n (predf gt) alpha (vecf v) md (vecf xs) (vecf xs')).
+  { intros i Hi.
+    assert (Hio : In i order).
+    { apply (Permutation_in _ (Permutation_sym Hperm)). apply in_seq. lia. }
+    destruct (Hin i Hio) as (r & Hr1 & Hr2 & Hr3).
+    exists r. unfold vecf. split; [exact Hr1|]. split; [rewrite Hr2; reflexivity|].
+    intros j. destruct (Hr3 j) as [H|[H|H]]; rewrite H; [left|right|left]; reflexivity. }
+  pose proof (async_error_bound n (predf gt) alpha (vecf v) Hg Ha Hv md (vecf xs) (vecf xs') (vecf sol)
+                Hstep Hsol) as Hb.
+  rewrite l1dist_sumn by lia. rewrite Hlen', Hlen. fold n.
+  rewrite Hacc. rewrite (suml_perm _ _ _ Hperm). fold n. rewrite suml_seq.
+  unfold vecf in *. lra.
 Qed.
